@@ -44,7 +44,7 @@ PURE_LIB: dict[str, T] = {
     'numpy.zeros_like': None, 'numpy.transpose': None, 'numpy.maximum': None,
     'numpy.minimum': None, 'numpy.isnan': ANY, 'numpy.float64': REAL,
     'numpy.linalg.norm': REAL, 'numpy.linalg.inv': MAT, 'numpy.linalg.pinv': MAT,
-    'numpy.sign': None, 'numpy.power': None, 'numpy.log1p': None, 'numpy.expm1': None,
+    'numpy.sign': None, 'numpy.empty': MAT, 'numpy.asarray': None, 'multiprocessing.cpu_count': INT, 'numpy.power': None, 'numpy.log1p': None, 'numpy.expm1': None,
     'scipy.linalg.pinv': MAT, 'scipy.linalg.inv': MAT, 'scipy.linalg.norm': REAL,
     'scipy.linalg.eigh': TTuple(VEC, MAT), 'scipy.linalg.svd': TTuple(MAT, VEC, MAT),
     'scipy.stats.norm.cdf': None, 'scipy.stats.norm.ppf': None, 'scipy.stats.norm.pdf': None,
@@ -222,7 +222,9 @@ def subscript(ex, st: State, obj: V, sl, node) -> V:
         if idx.kind in ('int', 'bool'):
             if k == 'vec':
                 return v_real(uf('vec_get', Val, I, R)(obj.t, as_int(idx)))
-            return V(uf('mat_row', Val, I, Val)(obj.t, as_int(idx)), VEC)
+            row = V(uf('mat_row', Val, I, Val)(obj.t, as_int(idx)), VEC)
+            st.assume_type(row)
+            return row
         return V(uf('arr_index', Val, Val, Val)(obj.t, idx.t), obj.ty)
     idx = ex.ev(st, sl)
     if k == 'py' and obj.py[0] in ('specseq', 'dictview', 'range', 'enumerate', 'zip'):
@@ -1407,7 +1409,21 @@ def construct_special(ex, st, ci, args, kwargs, node):
     return None
 
 
+# plain record classes of dependencies: constructor stores its keyword/positional arguments as fields
+LIB_RECORDS: dict[str, list[str]] = {
+    'biogeme_optimization.function.FunctionData': ['function', 'gradient', 'hessian'],
+}
+
+
 def call_lib(ex, st: State, dotted: str, args: list[V], kwargs: dict[str, V], node) -> V:
+    if dotted in LIB_RECORDS:
+        names = LIB_RECORDS[dotted]
+        vals_ = dict(zip(names, args))
+        vals_.update(kwargs)
+        r = st.new_ref(dotted.split('.')[-1])
+        for nme in names:
+            st.write(r, nme, ex.box(st, vals_[nme]) if nme in vals_ else Val.none)
+        return v_ref(r, dotted.split('.')[-1])
     if dotted in LIB_HANDLERS:
         return LIB_HANDLERS[dotted](ex, st, args, kwargs, node)
     if dotted == 'numpy.finfo':
